@@ -43,6 +43,10 @@ TECHNIQUE += '; finite-domain evaluation of the VASP switch and the Molden tag b
 TECHNIQUE += '; reader statements / routines evaluated on model records and model line iterators (fixed-width records with touching fields, blocks, grids, labelled rows)'
 EXPLANATION += " Added: (R5, R6 rewritten) the statements that store the quadrupole (FCHK, Q-Chem log) and the block that attaches WFX gradient rows are evaluated -- six different numbers in the file's component order, a gradient section listing the nuclei in another order than <Nuclear Names> -- instead of matching a permutation literal or an `.index(` call; R6 also requires a CONECT serial that is not in the frame's table to raise rather than be skipped; (R11) Molden tag lines; (R12) repeated blocks of a log follow one precedence (frozen first-wins slots); (R13) GRO box line: nine numbers land at (vector, component) and every entry gets the nanometer factor; (R14) pass-through copies keep their own key; (R15-R18) MOL2, PDB, WFN and CHARMM atom records on model records with touching fields; (R19) Gaussian-log five-column blocks; (R20) cube / VASP grid data order; (R21) WFN / WFX primitive regrouping (build_obasis evaluated)."
 # --- end metadata batch 7
+# --- metadata added for batch 8
+TECHNIQUE += '; record loops and small readers evaluated as a whole on model files (four-index records, VASP header and grid, GRO frame)'
+EXPLANATION += ' Changed / added: (R3) the two record loops that call set_four_index_element are interpreted on model records ((1 2|3 4) lands on (0, 2, 1, 3) and its seven partners only) instead of matching `int(field) - 1` statements; (R20) the VASP grid reader is interpreted as a whole on a model file; (R22) the VASP header reader on 20 model headers (scaling factor, element expansion, selective dynamics, Direct / Cartesian / Kartesian); (R23) the GRO frame reader on model frames (time positive / negative / with exponent / absent, residue and atom columns, positions, velocities, box).'
+# --- end metadata batch 8
 
 
 def _load_spec():
